@@ -37,6 +37,8 @@ type Val struct {
 	// V > 0: this slice argument is handed over as the window arg0[V-1 : V-1+len] of argument #0's own array (two arguments
 	// sharing memory; its value is still L — invisible to the Coq model like X)
 	V int `json:"v,omitempty"`
+	// NM: elements of an MM argument that are handed over as NIL maps (their value is the empty map — invisible to the Coq model)
+	NM []int `json:"nm,omitempty"`
 }
 
 func VZ(z int64) Val { return Val{T: "Z", Z: z} }
